@@ -177,6 +177,31 @@ def run(ctx, report: Report) -> None:
                     if unparse(args[1]) != 'self.pattern':
                         problems.append(f'passes `{unparse(args[1])}` instead of self.pattern')
                     pos = unparse(args[2])
+                    # a position taken from a named / numbered group is -1 when that group did not take part in the match
+                    for pc in [x for x in ast.walk(args[2]) if isinstance(x, ast.Call) and isinstance(x.func, ast.Attribute)
+                               and x.func.attr in ('start', 'end') and x.args]:
+                        g = inv.folder.try_ev('css_parser', pc.args[0], default='?')
+                        if g == 0:
+                            continue
+                        recv = unparse(pc.func.value)
+                        guarded = False
+                        cur, child = cmod.parents.get(rs), rs
+                        while cur is not None and cur is not fn:
+                            if isinstance(cur, ast.If) and any(child is st for st in cur.body):
+                                t = cur.test
+                                tests = t.values if isinstance(t, ast.BoolOp) and isinstance(t.op, ast.And) else [t]
+                                for tt in tests:
+                                    if isinstance(tt, ast.Call) and unparse(tt.func) == f'{recv}.group' and tt.args \
+                                            and inv.folder.try_ev('css_parser', tt.args[0], default='??') == g:
+                                        guarded = True
+                                    if isinstance(tt, ast.Compare) and isinstance(tt.left, ast.Call) and unparse(tt.left.func) == f'{recv}.group' \
+                                            and isinstance(tt.ops[0], ast.IsNot) and isinstance(tt.comparators[0], ast.Constant) \
+                                            and tt.comparators[0].value is None:
+                                        guarded = True
+                            child, cur = cur, cmod.parents.get(cur)
+                        if not guarded:
+                            problems.append(f'takes its position from `{unparse(pc)}`: group {g!r} need not have taken part in the match on this '
+                                            f'path, and then the offset is -1 (no line is marked, the column is 0)')
                     positional = [i for i in interp if i == pos or any(k in i for k in ('index', 'start(', 'end('))]
                     if positional and pos not in positional:
                         problems.append(f'names position {positional[0]} in its message but passes {pos}')
